@@ -35,6 +35,7 @@ func main() {
 		Run:             run,
 		ParentSetup:     parentSetup,
 		Setup:           func(c *harness.Ctx) { cli = os.Getenv("VERIF_CLI") },
+		SpinIsViolation: true,
 		MinNonTrivial:   20,
 		RaceIsViolation: true,
 		CaseTimeout:     60 * time.Second,
